@@ -97,7 +97,13 @@ void run_potrf(Input const& in, Ctx& ctx) {
 #if VP_C14_R == 1
 void run_geqrf(Input const& in, Ctx& ctx) {
 	Dec d{in};
-	long const m = d.size(), n = d.size();
+	long m = d.size(), n = d.size();
+	{ // now and then a very tall or very wide matrix (LAPACK's blocked code paths and workspace sizes depend on the aspect ratio)
+		static constexpr long kLong[4] = {40, 70, 100, 170};
+		unsigned const shape = d.u8();
+		if(shape % 8U == 0) { n = 1 + static_cast<long>((shape >> 3U) % 3U); m = kLong[(shape >> 5U) % 4U]; }
+		else if(shape % 8U == 1) { m = 1 + static_cast<long>((shape >> 3U) % 3U); n = kLong[(shape >> 5U) % 4U]; }
+	}
 	unsigned const pad = d.u8() % 4U; unsigned seed = d.u8();
 	ctx.desc << "geqrf " << m << 'x' << n << " pad=" << pad;
 	Block A(m, n, pad);
@@ -120,7 +126,7 @@ void run_geqrf(Input const& in, Ctx& ctx) {
 	double const tol = 256*std::numeric_limits<double>::epsilon()*static_cast<double>(std::max(m, n))*norm;
 	for(long i = 0; i < fr; ++i) { for(long j = 0; j < fc; ++j) { VP_CHECK(std::abs(QR[static_cast<std::size_t>(i*fc + j)] - A0[static_cast<std::size_t>(j*n + i)]) <= tol, "lapack/geqrf_reconstruction", "Q R differs from the input at Fortran (" << i << ',' << j << "): " << QR[static_cast<std::size_t>(i*fc + j)] << " vs " << A0[static_cast<std::size_t>(j*n + i)]); } }
 	ctx.nontrivial = m >= 2 && n >= 2 && (pad != 0 || m != n);
-	ctx.label(pad != 0 ? "padded" : "contiguous"); ctx.label(m == n ? "square" : "rectangular");
+	ctx.label(pad != 0 ? "padded" : "contiguous"); ctx.label(m == n ? "square" : (m > 32*n || n > 32*m) ? "very_elongated" : "rectangular");
 }
 #endif
 
